@@ -571,3 +571,6 @@ def run(ctx):
     r5(ctx, fs)
     r6(ctx, fs)
     agenda_restore(ctx, fs)
+    # the watch lists are not undone by pop(): that the network behaves alike after an undo rests on the watch invariants of the SAT core (C07: a learnt clause
+    # watches its two highest-level literals, a clause never loses a watch)
+    ctx.include('C07')
